@@ -1081,6 +1081,14 @@ func (s *IPSets) writeUpdates(setName string, w io.Writer, listener UpdateListen
 		targetSet = tempSet
 		// Temp IP set is empty.
 		members.Dataplane().DeleteAll()
+		defer func() {
+			if err != nil {
+				// We may already have created the temporary IP set.  It is not in our
+				// dataplane cache yet, so make sure it gets re-listed (and then deleted)
+				// rather than leaking until the next periodic resync.
+				s.resyncQueue.Add(tempSet, resyncPriMust)
+			}
+		}()
 	} else {
 		targetSet = setName
 	}
